@@ -193,3 +193,138 @@ func replayC01Table(raw json.RawMessage) (string, bool) {
 	}
 	return "history served intact", false
 }
+
+// Family "response-head-at-frame-size": the response header block is grown octet by octet across the peer's
+// SETTINGS_MAX_FRAME_SIZE (and twice that), where the server has to start cutting it into HEADERS + CONTINUATION.
+type c01HeadCase struct {
+	MaxFrame uint32 `json:"peer_max_frame_size"`
+	Mult     int    `json:"multiple"`
+	Delta    int    `json:"delta"`
+	Streamed bool   `json:"streamed_body"`
+}
+
+func c01HeadRun(cs c01HeadCase) (*fw.Violation, *harness.Server) {
+	so := harness.ServerOpts{MaxConcurrentStreams: 8}
+	if cs.MaxFrame != 16384 {
+		so.PeerSettings = []peer.Setting{{ID: peer.SMaxFrameSize, Val: cs.MaxFrame}}
+	}
+	h := harness.NewServer(so)
+	mk := func(rule, shape, detail string) *fw.Violation {
+		ev := h.EventLog
+		if len(ev) > 8 {
+			ev = append([]string{fmt.Sprintf("…%d events…", len(ev)-8)}, ev[len(ev)-8:]...)
+		}
+		return &fw.Violation{Rule: rule, Shape: shape, Detail: detail + "\n    events: " + strings.Join(ev, " ; "), Replay: map[string]any{"family": "c01head", "case": cs}}
+	}
+	id := uint32(1)
+	shape := fmt.Sprintf("head=%dx%d%+d", cs.Mult, cs.MaxFrame, cs.Delta)
+	// one exchange with a filler of n octets; returns the size of the header block the peer received
+	exchange := func(n int) (int, *fw.Violation) {
+		calls := len(h.Calls)
+		h.SendFrames(peer.Headers(id, reqBlock(id, "GET"), peer.HeadersOpt{EndStream: true, EndHeaders: true, Pad: -1}))
+		if len(h.Calls) != calls+1 {
+			return 0, mk("request-not-delivered-once", shape, fmt.Sprintf("stream %d: %d handler calls (%s)", id, len(h.Calls)-calls, h.Reaction(0)))
+		}
+		resp := harness.Resp{Status: 200, Headers: [][2]string{{"X-Fill", strings.Repeat("X", n)}}, Body: []byte("hello")}
+		if cs.Streamed {
+			resp.Body, resp.Stream = nil, &harness.BodyStream{Chunks: [][]byte{[]byte("hello")}, Declared: -1}
+		}
+		h.Finish(calls, resp)
+		if len(h.GoAways) > 0 || h.C.Closed() {
+			return 0, mk("connection-error-on-legal-history", shape, fmt.Sprintf("after the response on stream %d (X-Fill of %d octets): %s", id, n, h.Reaction(0)))
+		}
+		so := h.Streams[id]
+		if d, cl := harness.CheckResponse(so, resp); d != "" {
+			sz := 0
+			if so != nil && len(so.BlockFrames) > 0 {
+				for _, f := range so.BlockFrames[0] {
+					sz += f
+				}
+			}
+			return 0, mk("response-not-intact", shape+" "+cl, fmt.Sprintf("stream %d, X-Fill of %d octets (header block octets received so far: %d): %s", id, n, sz, d))
+		}
+		sz := 0
+		for _, f := range so.BlockFrames[0] {
+			if f > int(cs.MaxFrame) {
+				return 0, mk("frame-above-max-frame-size", shape, fmt.Sprintf("stream %d: header block frame of %d octets, the peer allows %d", id, f, cs.MaxFrame))
+			}
+			sz += f
+		}
+		id += 2
+		return sz, nil
+	}
+	base, v := exchange(300)
+	if v != nil {
+		return v, h
+	}
+	target := cs.Mult*int(cs.MaxFrame) + cs.Delta
+	n := 300 + target - base
+	got, v := exchange(n)
+	if v != nil {
+		return v, h
+	}
+	// the length prefix of the value may have grown by an octet: one correction
+	if got != target {
+		n += target - got
+		if got, v = exchange(n); v != nil {
+			return v, h
+		}
+	}
+	if got != target {
+		return mk("harness", shape, fmt.Sprintf("could not produce a header block of %d octets (got %d)", target, got)), h
+	}
+	// and the connection is still good for a plain exchange
+	if _, v := exchange(3); v != nil {
+		return v, h
+	}
+	return nil, h
+}
+
+func runC01Head(c *fw.Ctx) {
+	n := 0
+	for _, mf := range []uint32{16384, 20000} {
+		for mult := 1; mult <= 2; mult++ {
+			for d := -3; d <= 3; d++ {
+				for _, st := range []bool{false, true} {
+					n++
+					if !c.Mine(int64(1)<<44 + int64(n)) {
+						continue
+					}
+					if c.Expired("C01 response head sizes") {
+						return
+					}
+					cs := c01HeadCase{MaxFrame: mf, Mult: mult, Delta: d, Streamed: st}
+					v, h := c01HeadRun(cs)
+					js, _ := json.Marshal(cs)
+					c.Eval(nt(true, append([]byte("head"), js...)))
+					c.AddTransitions(int64(h.Events))
+					c.AddTraces(1)
+					c.State(fw.Hash(h.Digest()))
+					if v != nil {
+						c.Violate(*v)
+						c.Outcome(v.Rule)
+					} else {
+						c.Outcome("intact")
+					}
+					h.Close()
+				}
+			}
+		}
+	}
+	c.Family("response-head-at-frame-size")
+}
+
+func replayC01Head(raw json.RawMessage) (string, bool) {
+	var r struct {
+		Case c01HeadCase `json:"case"`
+	}
+	if err := json.Unmarshal(raw, &r); err != nil {
+		return err.Error(), false
+	}
+	v, h := c01HeadRun(r.Case)
+	defer h.Close()
+	if v != nil {
+		return v.Rule + " [" + v.Shape + "]: " + v.Detail, true
+	}
+	return "responses intact", false
+}
